@@ -311,6 +311,14 @@ Section CovProg.
     MScale (m_recip cp_c) (MMul (MTr (MMul (MDiag cp_p) cp_xxm)) cp_xxm).
 End CovProg.
 
+(* the weighted Gram matrix both branches of _covariance end with,
+     xxmw = xxm * w.reshape(-1, 1) / totw;  cov = xxmw.T.dot(xxm);  cov /= 1 - sum((w / totw) ** 2),
+   for ARBITRARY displacements xxm (whatever the centre xm was and whether or not they were wrapped
+   into the cell); variables 0 := xxm (n x D), 1 := w (n x 1).  cov_prog is this program with
+   xxm := X - average(X). *)
+Definition gram_prog (n D : nat) : mexp D D :=
+  MScale (m_recip (cp_c n)) (MMul (MTr (MMul (MDiag (cp_p n)) (MVar 0))) (MVar 0)).
+
 (* oas (repaired) followed by the Silverman scaling; variables 0 := cov (D x D),
    1 := nlocal (1 x 1), 2 := Silverman factor s (1 x 1).
    psi = 1 - phi = max(0, (den - num)/den) if den > 0 else 0. *)
@@ -352,7 +360,8 @@ Definition env2 (A B : fmat) (x : nat) : fmat := match x with O => A | _ => B en
 Definition env3 (A B C : fmat) (x : nat) : fmat :=
   match x with O => A | S O => B | _ => C end.
 
-(* _covariance(X, w, cell): free space = the mexp program, periodic = as written *)
+(* _covariance(X, w, cell): free space = the mexp program cov_prog; periodic = circular mean and
+   wrapped displacements as written (float list code), then the mexp program gram_prog *)
 Definition covariance_f (cell : option (list float)) (D : nat) (X : fmat) (wl : list float) : fmat :=
   match cell with
   | None => eval_f (env2 X (col1 wl)) (cov_prog (length X) D)
@@ -365,9 +374,7 @@ Definition covariance_f (cell : option (list float)) (D : nat) (X : fmat) (wl : 
             (seq 0 D) in
       let xm := lmap2 fatan2 (avg fsin) (avg fcos) in
       let xxm := map (fun r => lmap2 (fun ck z => z - frint (z / ck) * ck) c (lmap2 sub r xm)) X in
-      let xxmw := lmap2 (fun r wi => map (fun z => z * wi / totw) r) xxm wl in
-      let cden := 1 - fsum (map (fun x => x * x) p) in
-      map (map (fun z => z / cden)) (fmul D (ftr D xxmw) xxm)
+      eval_f (env2 xxm (col1 wl)) (gram_prog (length X) D)
   end.
 
 Definition ftrace (A : fmat) : float := fsum (map (fun i => fget A i i) (seq 0 (length A))).
